@@ -493,6 +493,15 @@ func goFuncWriteAPI(ps *spec.Proc, t *sp.Task) {
 	for _, kv := range inShas {
 		ins[kv.K] = kv.V
 	}
+	switch vproto.OptsFor(c, key)["fail"] {
+	case "exit-after-write":
+		// the function reports a failure after it has written all its outputs
+		vproto.Emit(&vproto.Event{Ev: "end", ID: c.ID, Key: key, Pid: os.Getpid(), Status: 3, Note: "exit-after-write", Ins: ins, Outs: outs, InProc: true})
+		t.Failf("go function of %s failed after writing its outputs", key)
+	case "panic-after-write":
+		vproto.Emit(&vproto.Event{Ev: "end", ID: c.ID, Key: key, Pid: os.Getpid(), Status: 2, Note: "panic-after-write", Ins: ins, Outs: outs, InProc: true})
+		panic("injected panic in the Go function of task " + key)
+	}
 	vproto.Emit(&vproto.Event{Ev: "end", ID: c.ID, Key: key, Pid: os.Getpid(), Status: 0, Ins: ins, Outs: outs, InProc: true})
 }
 
